@@ -2,8 +2,8 @@
 Require Extraction.
 Require Import ExtrOcamlBasic.
 From Coq Require Import ZArith.
-From Verif Require Import Mvcc.Model Mvcc.Spec Mvcc.ProofsLockMono Mvcc.Deadlock.
+From Verif Require Import Mvcc.Model Mvcc.Spec Mvcc.ProofsLockMono Mvcc.Deadlock Mvcc.Handler.
 Extraction Language OCaml.
 Extraction "mvcc_model.ml" step get_ks set_ks max_ts oracle_ts spec_get spec_scan spec_rscan exclusive_ok gc_refused
-  idem_cmd has_write prewrite_targets is_gc_over lock_of rolled_back committed empty_ks world_of in_range read_at unlocked lock_mono_ok commit_must_be_refused dstep
+  idem_cmd has_write prewrite_targets is_gc_over lock_of rolled_back committed empty_ks world_of in_range read_at unlocked lock_mono_ok commit_must_be_refused dstep handler_scan_lock
   Z.of_N (* type z is needed by ocaml/common/common.ml *).
